@@ -3,6 +3,7 @@ package main
 import (
 	"encoding/json"
 	"fmt"
+	"math"
 
 	be "github.com/echoface/be_indexer"
 )
@@ -155,7 +156,40 @@ func init() {
 				}
 				restore()
 			}
-			return map[string]interface{}{"republished_index_retrievals": calls}, viol
+			// fields whose values go through the geohash parser (not in the Coq model): panic-freedom of Retrieve only,
+			// for the default option and for precisions finer than the compression cutoff
+			geoCalls := 0
+			for _, kind := range []string{"kgroups", "compact"} {
+				for _, pn := range []string{"geohash", "geohash7", "geohash8"} {
+					c := eCase{Kind: kind, Policy: "skip", Parsers: map[int]string{6: pn}}
+					restore := installParsers(c.Parsers)
+					b := newBuilder(&c)
+					d1 := eDoc{ID: 1, Cons: []eConj{{{F: 6, Inc: true, V: tvStr("39.9:116.4:60")}}}}
+					d2 := eDoc{ID: 2, Cons: []eConj{{{F: 0, Inc: true, V: tvSlice("[]int", tvInt("int", 7))}, {F: 6, Inc: false, V: tvStr("10:20:40")}}}}
+					safeCall(func() { b.AddDocument(d1.build()) })
+					safeCall(func() { b.AddDocument(d2.build()) })
+					var index be.BEIndex
+					if safeCall(func() { index = b.BuildIndex() }) {
+						restore()
+						continue
+					}
+					vals := []interface{}{[2]float64{39.9, 116.4}, []float64{39.9, 116.4}, []float64{10, 20}, [2]float64{math.NaN(), 1}, [2]float64{math.Inf(1), math.Inf(-1)},
+						[2]float64{1000, -1000}, [2]float64{-90, -180}, [2]float64{90, 180}, []float64{}, []float64{1}, []float64{1, 2, 3}, "39.9:116.4:500"}
+					for _, v := range allShapes() {
+						vals = append(vals, v.Value())
+					}
+					for _, v := range vals {
+						for _, q := range []be.Assignments{{fieldName(6): v}, {fieldName(0): 7, fieldName(6): v}} {
+							geoCalls++
+							if safeCall(func() { index.Retrieve(q) }) && len(viol) < 5 {
+								viol = append(viol, fmt.Sprintf("Retrieve panicked on a %s index with a %s field: value %T %v", kind, pn, v, v))
+							}
+						}
+					}
+					restore()
+				}
+			}
+			return map[string]interface{}{"republished_index_retrievals": calls, "geohash_field_retrievals": geoCalls}, viol
 		},
 		exec: func(raw json.RawMessage) (execResult, error) {
 			var probe struct {
